@@ -64,6 +64,8 @@ def _stem_job(args):
             plans.append(('other', var['other'], 'close'))
         if 'small' in var:
             plans.append(('small', var['small'], 'close'))
+        if 'ema-matype' in var:
+            plans.append(('ema-matype', var['ema-matype'], 'close'))
         if indreg.has(f, 'source_type'):
             plans.append(('default', var['default'], 'hl2'))
             if not quick:
